@@ -11,6 +11,7 @@ from .asyncio_runner import AsyncioRunner
 from .thread_runner import ThreadRunner
 
 from ..debug import NameRepr
+from ._verif import point
 
 
 class MetaRunner(object):
@@ -43,10 +44,13 @@ class MetaRunner(object):
         try:
             runner = self._runners[flavour]
         except KeyError:
+            point("mr.reg.miss", flavour=flavour.__name__)
             if self.running.is_set():
                 raise RuntimeError(f"unknown runner {NameRepr(flavour)}") from None
+            point("mr.reg.queue", flavour=flavour.__name__)
             self._runner_queues.setdefault(flavour, []).extend(payloads)
         else:
+            point("mr.reg.direct", flavour=flavour.__name__)
             for payload in payloads:
                 self._logger.debug(
                     "registering payload %s (%s)", NameRepr(payload), NameRepr(flavour)
@@ -84,7 +88,9 @@ class MetaRunner(object):
     async def _manage_runners(self):
         """Manage all runners inside the current `asyncio` event loop"""
         runner_tasks = await self._launch_runners()
+        point("mr.launched")
         self.running.set()
+        point("mr.running.set")
         try:
             # wait for all runners to either stop gracefully or propagate errors
             # we only unqueue payloads *while* watching runners as payloads could
@@ -100,6 +106,7 @@ class MetaRunner(object):
             raise
         finally:
             self.running.clear()
+            point("mr.running.clear")
 
     async def _launch_runners(self) -> List[asyncio.Task]:
         """Launch all runners inside the current `asyncio` event loop"""
@@ -119,14 +126,18 @@ class MetaRunner(object):
         # This also provides checking that the queued flavours correspond to a runner.
         assert self.running.is_set(), "runners must be launched before unqueueing"
         # runners are started, so re-registering payloads does not queue them again
+        point("mr.unq.begin")
         for flavour, queue in self._runner_queues.items():
             self.register_payload(*queue, flavour=flavour)
             queue.clear()
         self._runner_queues.clear()
+        point("mr.unq.end")
 
     async def _aclose_runners(self, runner_tasks):
+        point("mr.aclose.begin")
         for runner in self._runners.values():
             await runner.aclose()
         # wait until runners are closed
         await asyncio.gather(*runner_tasks, return_exceptions=True)
         self._runners.clear()
+        point("mr.aclose.end")
